@@ -249,11 +249,15 @@ var profiles = map[string]func(r *rand.Rand, p *Plan) weights{
 		p.Cfg.WM = uint32(r.IntN(4))
 		p.Cfg.NilPool = r.IntN(8) == 0
 		p.Cfg.NilCfg = r.IntN(12) == 0
-		n := r.IntN(4)
-		for i := 0; i < n; i++ {
+		// every extra method name is listed at most once (the statement covers
+		// names "listed (once)"; duplicates are unspecified)
+		perm := r.Perm(3)
+		n := r.IntN(3)
+		for i := 0; i < n && len(perm) > 0; i++ {
 			e := ExtraEntry{Cmd: r.IntN(3), HasAff: r.IntN(4) > 0}
-			for j := 0; j < 1+r.IntN(2); j++ {
-				e.Names = append(e.Names, r.IntN(3))
+			for j := 0; j < 1+r.IntN(2) && len(perm) > 0; j++ {
+				e.Names = append(e.Names, perm[0])
+				perm = perm[1:]
 			}
 			p.Cfg.Extra = append(p.Cfg.Extra, e)
 		}
